@@ -183,7 +183,9 @@ CANARIES = {"quick": 30, "thorough": 60}
 INFO = {
     "explanation": "For every structure with both directions the canonical response is built by the independent builder with all "
                    "fields symbolic; the real unmarshall/marshall pair runs both ways and z3 decides byte-for-byte equality "
-                   "of marshall(unmarshall(b)) with b, equality of unmarshall(marshall(d)) with d for the decoded dictionary, "
+                   "of marshall(unmarshall(b)) with b, equality of unmarshall(marshall(d)) with d for the decoded dictionary and "
+                   "for the value dictionary of the canonical response itself (READ CAPACITY, GET LBA STATUS, REPORT LUNS, "
+                   "REPORT TARGET PORT GROUPS, READ ELEMENT STATUS, TransportIDs), "
                    "and, for every mode-page field, that a read-modify-write through ModeSelect changes exactly that field's "
                    "bits (the swp path of tools/swp.py among them).",
     "functions": ["Inquiry.marshall_datain/unmarshall_datain/marshall_designation_descriptor/marshall_designator/"
